@@ -599,3 +599,170 @@ Proof. intros H. rewrite mangle1_unaliased by auto. apply plain_fresh. Qed.
 
 Theorem local_after_import_is_error g d l : defined (d_name d) l = true -> define g false d l = Err EDup.
 Proof. apply define_dup. Qed.
+
+(* ------------------------------------------------------------------ templates *)
+Lemma tree_ind' (P : tree -> Prop) :
+  (forall d ch, Forall P ch -> P (Nd d ch)) -> (forall b n, P (Sy b n)) -> (forall v, P (Tk v)) ->
+  forall t, P t.
+Proof.
+  intros Hn Hs Hk. fix IH 1. intros t. destruct t as [d ch|b n|v].
+  - apply Hn. induction ch as [|c ch IHch]; constructor. apply IH. exact IHch.
+  - apply Hs.
+  - apply Hk.
+Qed.
+
+Lemma map_id_Forall {A} (f : A -> A) l : Forall (fun x => f x = x) l -> map f l = l.
+Proof. induction 1; simpl; congruence. Qed.
+
+(* symbols that are not parameters are left alone: a body without parameters is unchanged *)
+Theorem subst_fresh names t :
+  (forall s, In s (syms t) -> assoc s names = None) -> subst names t = t.
+Proof.
+  induction t as [d ch IH|b n|v] using tree_ind'; simpl; auto. intros Hf.
+  assert (Hm : map (subst names) ch = ch).
+  { apply map_id_Forall. rewrite Forall_forall in *. intros c Hc. apply IH; auto.
+    intros s Hs. apply Hf. apply in_flat_map. eauto. }
+  rewrite Hm.
+  destruct (String.eqb d "value").
+  - destruct ch as [|[ | b n | ] [|? ?]]; auto.
+    rewrite (Hf n); auto. simpl. auto.
+  - destruct (String.eqb d "template_usage"); auto.
+    destruct ch as [|[ | b n | ] rest]; auto.
+    rewrite (Hf n); auto. simpl. auto.
+Qed.
+
+Corollary subst_nil t : subst [] t = t.
+Proof. apply subst_fresh. auto. Qed.
+
+(* the two places where a parameter is replaced *)
+Lemma subst_value names b p a :
+  assoc p names = Some a -> subst names (Nd "value" [Sy b p]) = a.
+Proof. simpl. now intros ->. Qed.
+
+Lemma subst_template_head names b p a args :
+  assoc p names = Some a ->
+  subst names (Nd "template_usage" (Sy b p :: args)) = Nd "template_usage" (a :: map (subst names) args).
+Proof. simpl. now intros ->. Qed.
+
+Lemma assoc_In {A} x (l : list (string * A)) a : assoc x l = Some a -> In a (map snd l).
+Proof.
+  induction l as [|[k v] r IH]; simpl; [discriminate|].
+  destruct (String.eqb x k); intros H; [inversion H; auto | auto].
+Qed.
+
+(* no capture: every symbol of an instance is a symbol of the template body or of an argument *)
+Theorem subst_syms names t s :
+  In s (syms (subst names t)) ->
+  In s (syms t) \/ exists a, In a (map snd names) /\ In s (syms a).
+Proof.
+  induction t as [d ch IH|b n|v] using tree_ind'; simpl; auto. intros H.
+  assert (Hch : In s (flat_map syms (map (subst names) ch)) ->
+                In s (flat_map syms ch) \/ exists a, In a (map snd names) /\ In s (syms a)).
+  { intros H0. apply in_flat_map in H0. destruct H0 as (c' & Hc' & Hs).
+    apply in_map_iff in Hc'. destruct Hc' as (c & <- & Hc).
+    rewrite Forall_forall in IH. destruct (IH c Hc Hs) as [H1|H1]; auto.
+    left. apply in_flat_map. eauto. }
+  destruct (String.eqb d "value").
+  - destruct (map (subst names) ch) as [|[ | b n | ] [|? ?]] eqn:E; try (apply Hch; exact H).
+    destruct (assoc n names) as [a|] eqn:Ea; [|apply Hch; exact H].
+    right. exists a. split; auto. eapply assoc_In; eauto.
+  - destruct (String.eqb d "template_usage"); [|apply Hch; exact H].
+    destruct (map (subst names) ch) as [|[ | b n | ] rest] eqn:E; try (apply Hch; exact H).
+    destruct (assoc n names) as [a|] eqn:Ea; [|apply Hch; exact H].
+    simpl in H. apply in_app_or in H. destruct H as [H|H].
+    + right. exists a. split; auto. eapply assoc_In; eauto.
+    + apply Hch. simpl. now right.
+Qed.
+
+(* ApplyTemplates.template_usage: a new instance is the substitution of the arguments for the
+   parameters in the template's body, is named by template and arguments, carries no parameters
+   and the template's options; a second use with the same arguments creates nothing *)
+Theorem template_is_substitution created rds name args created' rds' rn :
+  template_usage_step created rds name args = Ok (created', rds', rn) ->
+  rn = instance_name name args /\
+  ((mem rn created = true /\ created' = created /\ rds' = rds) \/
+   (mem rn created = false /\ created' = (created ++ [rn])%list /\
+    exists r, find_rdef name rds = [r] /\ List.length (r_params r) = List.length args /\
+      rds' = (rds ++ [mkR rn [] (subst (zip_dict (r_params r) args []) (r_tree r)) (r_opts r)])%list)).
+Proof.
+  unfold template_usage_step. destruct (mem (instance_name name args) created) eqn:Em.
+  - intros H; inversion H; subst. auto.
+  - destruct (find_rdef name rds) as [|r [|? ?]] eqn:Ef; try discriminate.
+    destruct (Nat.eqb (List.length (r_params r)) (List.length args)) eqn:El; simpl; [|discriminate].
+    intros H; inversion H; subst. split; auto. right. repeat split; auto.
+    exists r. repeat split; auto. now apply Nat.eqb_eq.
+Qed.
+
+Theorem template_cached_second_use created rds name args created' rds' rn :
+  template_usage_step created rds name args = Ok (created', rds', rn) ->
+  template_usage_step created' rds' name args = Ok (created', rds', rn).
+Proof.
+  intros H. destruct (template_is_substitution _ _ _ _ _ _ _ H) as (-> & [(Hm & -> & ->)|(Hm & -> & _)]).
+  - unfold template_usage_step. now rewrite Hm.
+  - unfold template_usage_step.
+    assert (mem (instance_name name args) (created ++ [instance_name name args]) = true) as ->; auto.
+    apply mem_In. apply in_or_app. right. now left.
+Qed.
+
+(* ------------------------------------------------------------------ instance names *)
+Fixpoint has_char (c : ascii) (s : string) : bool :=
+  match s with EmptyString => false | String d r => Ascii.eqb c d || has_char c r end.
+
+Lemma split_at_char c a : forall a' b b',
+  has_char c a = false -> has_char c a' = false ->
+  a ++ String c b = a' ++ String c b' -> a = a' /\ b = b'.
+Proof.
+  induction a as [|x a IH]; intros [|x' a'] b b'; simpl; intros Ha Ha' H.
+  - inversion H; auto.
+  - inversion H. subst x'. rewrite Ascii.eqb_refl in Ha'. discriminate.
+  - inversion H. subst x. rewrite Ascii.eqb_refl in Ha. discriminate.
+  - inversion H. subst x'. apply orb_false_iff in Ha, Ha'.
+    destruct (IH a' b b') as [-> ->]; tauto.
+Qed.
+
+Lemma app_str_inj_r c : forall a b, a ++ c = b ++ c -> a = b.
+Proof.
+  induction a as [|x a IH]; intros [|y b]; simpl; intros H; auto.
+  - apply (f_equal String.length) in H. simpl in H. rewrite length_app_str in H. lia.
+  - apply (f_equal String.length) in H. simpl in H. rewrite length_app_str in H. lia.
+  - inversion H. f_equal. now apply IH.
+Qed.
+
+Lemma has_char_mid c a b : has_char c (a ++ String c b) = true.
+Proof. induction a; simpl. now rewrite Ascii.eqb_refl. rewrite IHa. apply orb_true_r. Qed.
+
+Definition flat_name (s : string) : Prop := has_char "," s = false /\ s <> "".
+
+Lemma join_cons2 sep x y r : join sep (x :: y :: r) = x ++ sep ++ join sep (y :: r).
+Proof. reflexivity. Qed.
+
+Lemma join_nonempty x r : x <> "" -> join "," (x :: r) <> "".
+Proof.
+  destruct r; simpl; auto. intros Hx H. destruct x; simpl in H; [auto | discriminate].
+Qed.
+
+Lemma join_inj l : forall l', Forall flat_name l -> Forall flat_name l' -> join "," l = join "," l' -> l = l'.
+Proof.
+  induction l as [|x r IH]; intros [|x' r'] Hl Hl' H; auto.
+  - inversion Hl' as [|? ? [_ Hx] _]; subst. symmetry in H. now apply join_nonempty in H.
+  - inversion Hl as [|? ? [_ Hx] _]; subst. now apply join_nonempty in H.
+  - inversion Hl as [|? ? [Hc Hx] Hr]; inversion Hl' as [|? ? [Hc' Hx'] Hr']; subst.
+    destruct r as [|y r], r' as [|y' r'].
+    + simpl in H. now subst.
+    + rewrite join_cons2 in H. simpl in H. subst x. rewrite has_char_mid in Hc. discriminate.
+    + rewrite join_cons2 in H. simpl in H. subst x'. rewrite has_char_mid in Hc'. discriminate.
+    + rewrite !join_cons2 in H. simpl in H. apply split_at_char in H; auto. destruct H as [-> H].
+      f_equal. now apply IH.
+Qed.
+
+(* the cache key of ApplyTemplates identifies template and arguments (for flat argument names) *)
+Theorem instance_name_injective f args f' args' :
+  has_char "{" f = false -> has_char "{" f' = false ->
+  Forall flat_name (map arg_name args) -> Forall flat_name (map arg_name args') ->
+  instance_name f args = instance_name f' args' ->
+  f = f' /\ map arg_name args = map arg_name args'.
+Proof.
+  unfold instance_name. intros Hf Hf' Ha Ha' H. simpl in H.
+  apply split_at_char in H; auto. destruct H as [-> H]. split; auto.
+  apply app_str_inj_r in H. now apply join_inj.
+Qed.
